@@ -13,7 +13,7 @@ import (
 // produce the files the parser properties are judged on.
 
 type gbRef struct {
-	index                                           int
+	index                                        int
 	rng, authors, title, journal, pubmed, remark string
 }
 
